@@ -23,6 +23,14 @@ import (
 // be untransmitted. All messages share one Created second (virtual clock), the common
 // case in production; "tick" ops (thorough) also let Created differ and wrap uint16; one
 // configuration lowers the maximum packet id to 3 so that identifiers wrap around.
+//
+// Backlog in the subscriber's outbound queue: "burst" ops let p send several PUBLISH
+// packets (QoS 0 | 1 | 2; small and large payloads in the patterns sls, ssls, ...) in ONE
+// network segment, so that under the sequential default schedule they are all queued for a
+// before its writer runs; Options.ClientNetWriteBufferSize is 64 and a large payload
+// exceeds it (buffered / direct-write paths of Client.WritePacket). QoS 0 messages are
+// judged too: whichever of them arrive, arrive in publish order. Keys
+// order:<how>:...:same-segment-burst[:large-overtakes-small], order:qos0:...
 
 func init() {
 	explore.RegisterBFS("c12", qosRun("c12"))
@@ -36,13 +44,17 @@ func init() {
 			sts = append(sts, explore.RunBFS(c, "c12", "v=5,rm=0,pubs=3,qos=2,conns=1,take=1,maps=1", 0, 25*time.Second))
 			sts = append(sts, explore.RunBFS(c, "c12", "v=4,pubs=3,qos=12,conns=1,maps=1", 0, 15*time.Second))
 			sts = append(sts, explore.RunBFS(c, "c12", "v=5,rm=0,maxpid=3,pubs=4,qos=1,conns=1,maps=1", 0, 10*time.Second))
+			sts = append(sts, explore.RunBFS(c, "c12", "v=5,rm=0,pubs=4,qos=01,conns=0,wbuf=64,bursts=sls.ssls", 0, 20*time.Second))
 		} else {
 			sts = append(sts, explore.RunBFS(c, "c12", "v=5,rm=1,pubs=3,qos=12,conns=2,take=1,maps=1", 0, 210*time.Second))
 			sts = append(sts, explore.RunBFS(c, "c12", "v=5,rm=0,pubs=4,qos=12,conns=1,take=1,maps=1", 0, 150*time.Second))
 			sts = append(sts, explore.RunBFS(c, "c12", "v=5,rm=2,pubs=4,qos=1,conns=1,maps=1,ticks=1", 0, 2*time.Minute))
 			sts = append(sts, explore.RunBFS(c, "c12", "v=4,pubs=3,qos=12,conns=2,maps=1,ticks=1", 0, 2*time.Minute))
 			sts = append(sts, explore.RunBFS(c, "c12", "v=5,rm=0,maxpid=3,pubs=5,qos=1,conns=1,maps=1", 0, 90*time.Second))
+			sts = append(sts, explore.RunBFS(c, "c12", "v=5,rm=0,pubs=6,qos=012,conns=1,wbuf=64,bursts=sls.ssls.lsl.ls.sl,nbursts=2", 0, 90*time.Second))
+			sts = append(sts, explore.RunBFS(c, "c12", "v=5,rm=1,pubs=4,qos=1,conns=1,wbuf=64,bursts=sls.ls,maps=1", 0, 60*time.Second))
+			sts = append(sts, explore.RunBFS(c, "c12", "v=4,pubs=4,qos=01,conns=0,wbuf=64,bursts=sls.ssls", 0, 30*time.Second))
 		}
-		qosFold(c, sts, "first_tx_release", "first_tx_reconnect", "nondefault_getall_orders_executed")
+		qosFold(c, sts, "first_tx_release", "first_tx_reconnect", "nondefault_getall_orders_executed", "bursts_backlogged_large_behind_small", "first_tx_qos0")
 	})
 }
